@@ -32,7 +32,11 @@ def case(seed, idx, res, tier):
     loop = rng.choice([2, 2, 3, 5])
     ov = dict(solver=solver, storage_layout=layout, panic_error_codes=set(codes), loop=loop)
     if rng.random() < 0.3:
-        ov["default_array_lengths"] = rng.choice([[0, 1, 2], [0, 1, 2, 3], [2]])
+        ov["cache_solver"] = True
+        ov["solver_threads"] = rng.choice([1, 1, 4])
+        res["features"]["cache_solver"] += 1
+    if rng.random() < 0.3:
+        ov["default_array_lengths"] = rng.choice([[0, 1, 2], [0, 1, 2, 3], [2], [2, 1, 0]])
     if rng.random() < 0.3:
         ov["default_bytes_lengths"] = rng.choice([[0, 65], [65], [0, 32, 65, 1024]])
     res["features"][f"solver:{solver}"] += 1
